@@ -70,6 +70,15 @@ def rule_mirror(ctx, tab, rule="R2"):
             ok = r.pos[0] == "bin" and r.pos[1] == "Div" and r.pos[3] == tab["D"]
             ctx.ob(rule, "forward/" + r.label, ok, "forward position must be cycle_time / duration, is %s" % show(r.pos),
                    tab["body"]["span"], what="forward-not-ratio")
+            if ok:
+                # the cycle time is the time since the delay (no repeat), its remainder modulo the cycle duration, or the
+                # duration itself (hold): that is what makes the position linear within a cycle and periodic with period D
+                S_, D_ = tab["S"], tab["D"]
+                forms = (S_, ("bin", "Rem", S_, D_, "f32"), D_)
+                okc = r.pos[2] in forms and (r.repeat != "None" or r.pos[2] == S_)
+                ctx.ob(rule, "cycle-time/" + r.label, okc,
+                       "the cycle time must be time-since-delay, its remainder modulo the cycle duration, or the duration "
+                       "itself; it is %s" % show(r.pos[2]), tab["body"]["span"], what="cycle-time-form")
             flag = dict(r.loop[4]).get("is_reversing")
             ctx.ob(rule, "forward-flag/" + r.label, flag == pse.mk_bool(False), "non-reversing timeline never reverses",
                    tab["body"]["span"], what="reversing-flag")
